@@ -63,6 +63,10 @@ CHECKS = {
    technique='exhaustive enumeration of every write()-level kill point and torn write of the CLI run (LD_PRELOAD shim) plus enumerated command lines compared byte for byte with an in-process API recomputation',
    text='Every write()/writev() to the event and companion files of several command lines is numbered through an LD_PRELOAD shim and the run is repeated with the process killed before each write and with that write torn (1 byte, half): the completion marker may only be present if the event file equals the complete one, and what is left is a prefix. 140+ command lines (accepted and refused, one-sided windows, activity, MDL) are run twice on the binary built from /repo and compared byte for byte with the library API driven in-process with the same seed.',
    note='Trusted: process kill only (no reordering of completed writes, no ENOSPC); refusal rules from README/--help.'),
+ 'C17': dict(level='exploration', ref='DESIGN.md §2 C17', engine='c17',
+   technique='exhaustive enumeration of a configuration grid on the unmodified Geant4 extension sources compiled against a minimal Geant4 stand-in; differential against the core API',
+   text='The unmodified primary_generator_action.cc and unique_point_vertex_generator.cc are compiled against stand-in Geant4 headers and driven over ~4000 (quick) configurations (categories, valid/invalid/unpublished nuclides, seeds, modes, levels, windows, MDL, three vertex-generator situations); refusal is compared with the core tools (driver rules + decay0_generator::initialize run in-process) and every handed-over primary with the particle of an identically seeded core generator (species, momentum in MeV, time in seconds, vertex).',
+   note='Trusted: the stand-in reproduces G4ParticleGun::SetParticleMomentum semantics and CLHEP unit values; real Geant4 is not available offline.'),
 }
 NOT_YET = {
 }
@@ -109,6 +113,7 @@ def main():
             {'name': 'c05', 'path': 'checks/c05.cc', 'serves_properties': ['C05'], 'kind_free_text': 'catalogue enumerator and name-vs-scheme differential'},
             {'name': 'c12', 'path': 'checks/c12.cc', 'serves_properties': ['C12'], 'kind_free_text': 'cooperative scheduler (engine/sched.hpp) + preemption-bounded explorer over link-time interposed sync points; checks/c12_tsan.cc race pass'},
             {'name': 'c13', 'path': 'checks/c13.py', 'serves_properties': ['C13'], 'kind_free_text': 'CLI enumerator, API-equivalent recomputation (checks/c13api.cc), kill-point shim (engine/killpt/kp.c)'},
+            {'name': 'c17', 'path': 'checks/c17.cc', 'serves_properties': ['C17'], 'kind_free_text': 'Geant4 stand-in (engine/g4stub) + configuration grid differential'},
             {'name': 'd0ref', 'path': 'tools/f2cxx.py', 'serves_properties': ['C01', 'C02', 'C06'], 'kind_free_text': 'reference model generated from resources/code/decay0/decay0_2020-04-20.for'},
         ],
         'checks': checks,
